@@ -479,7 +479,8 @@ def judge(prop, case, acc):
         ev_rows = [(e[1], day(e[2]), e[3], e[4]) for e in events]
         led_rows = [(r.resource.name, r.date, r.task.id, r.units) for r in rows if r.resource.name in probe_names]
         acc.count('reserve_events', len(ev_rows))
-        if ev_rows != led_rows:
+        # multiset comparison: the order of rows inside the report is not part of the property
+        if sorted(ev_rows, key=repr) != sorted(led_rows, key=repr):
             viol('C03', f"report-differs-from-reserve-events/{case['dir']}", f'{len(ev_rows)} reserve events vs {len(led_rows)} report rows on probe resources: {_first_diff(ev_rows, led_rows)}')
         # online-style replay of the reserve hook
         run = collections.defaultdict(float)
@@ -768,22 +769,20 @@ def judge(prop, case, acc):
         free = [i for i in c.order if not c.ch[i] and not spec[i]['milestone']
                 and not c.preds[i] and not c.succs[i] and not c.extpred[i]
                 and all(not c.preds[a] and not c.succs[a] and not c.extpred[a] for a in c.anc[i])]
+        # order in which capacity was handed out = order of the reserve events at the IResource hook (chronological
+        # truth); tasks on default resources have no hook and are skipped (the order of report rows is not specified)
         pos = {}
         for p_, e in enumerate(events):
             pos.setdefault(e[3], []).append(p_)
-        # default-resource tasks have no events; use row order instead
-        rpos = {}
-        for p_, r in enumerate(rows):
-            rpos.setdefault(r.task.id, []).append(p_)
         prev = None
         for i in free:
             tid = spec[i]['id']
-            if tid not in rpos:
+            if tid not in pos:
                 continue
             if prev is not None:
                 acc.ev()
                 acc.count('order_pairs')
-                if max(rpos[prev]) > min(rpos[tid]):
+                if max(pos[prev]) > min(pos[tid]):
                     viol('C08', 'capacity-not-in-wbs-order', f'dependency-free leaves {prev} then {tid} in WBS order, but {tid} was served before {prev} finished booking')
             prev = tid
         if not bal:
